@@ -15,6 +15,7 @@
 #include <vector>
 
 extern "C" {
+#include "logger.h"
 #include "device/hal/device.manager.h"
 #include "device/hal/camera.h"
 #include "device/hal/storage.h"
@@ -305,6 +306,7 @@ int main(int argc, char** argv)
         else { fprintf(stderr, "unknown arg %s\n", a.c_str()); return 2; }
     }
     auto t0 = std::chrono::steady_clock::now();
+    logger_set_reporter(reporter); // as acquire_init does: with a reporter installed the HAL formats its log messages
     if (shard == 0 && rp.empty()) lifecycle_sequences(7);
     DeviceManager dm = { nullptr };
     DeviceStatusCode irc;
@@ -364,6 +366,10 @@ int main(int argc, char** argv)
         pats.push_back(esc);
         std::string big(255, 'a'); pats.push_back(big); pats.push_back(nm + std::string(255 - nm.size(), '\0'));
     }
+    // malformed patterns that are also hostile printf formats (error paths log the exception text; the pattern must never be
+    // interpreted as a format), with and without a well-formed prefix
+    for (const char* h : { "[%s%s%s%s%s%s%s%s%s%s%s%s%s%s%s%s", "(%n%n%n%n%n%n%n%n", "*%s%s%s%s%s%s%s%s%s%s%s%s", "raw[%s%s%s%s%s%s%s%s%s%s%s%s%s%s%s%s%s%s%s%s%s%s%s%s", "\\%s%s%s%s%s%s%s%s%s%s%s%s(", "%s%s%s%s%s%s%s%s%s%s%s%s", "[%d%x%c", "tiff(%5000s%n" }) pats.push_back(h);
+    { std::string a = "[", b = "(", c = "*"; for (int i = 0; i < 100; ++i) a += "%s"; for (int i = 0; i < 100; ++i) b += "%n"; for (int i = 0; i < 60; ++i) c += "%s%n"; pats.push_back(a); pats.push_back(b); pats.push_back(c); }
     for (int kind : { (int)DeviceKind_Camera, (int)DeviceKind_Storage })
         for (size_t i = 0; i < pats.size(); ++i) if ((int)(i % (size_t)nshard) == shard) check_select(&dm, kind, pats[i]);
     try { device_manager_destroy(&dm); } catch (...) { viol("exception-escaped", "device_manager_destroy let an exception escape", "destroy"); }
